@@ -1,6 +1,7 @@
 import Zed.Model.Sexp
 import Zed.Model.Compare
 import Zed.Model.MergeOp
+import Zed.Model.NullsSites
 /-!
   Driver glue for C06.  A value travels as `(<type value hex> <zcode body hex | null>)`.
 
@@ -15,6 +16,9 @@ import Zed.Model.MergeOp
        came from): answers `ok <tags of pull 1>/<tags of pull 2>/…` when the run is one the model
        of merge.Op allows (value limit of the read path = the regenerated PullerBatchValues), else
        `reject <index of the first Pull that is not allowed>`
+  `(C06 sitecmp <file:function> <k> <nullsFirst> <param> <desc> <val> <val>)`  the comparison made by the
+       k-th comparator constructed at that site of the regenerated table `comparatorSites`: the flag
+       by the site's rule (`NullsRule`), then `Comparator.Compare` on one key with direction `desc`
 -/
 namespace Zed.Drv.C06
 open Zed Zed.Sexp
@@ -101,6 +105,18 @@ def handle : List Sexp → String
       | some outs => "ok " ++ "/".intercalate (outs.map tags)
       | none => s!"reject {rejectAt le pullerBatchValues ps obs 0}"
     | _, _ => "bad-val"
+  | [.atom "sitecmp", .atom site, .atom k, .atom nf, .atom p, .atom d, a, b] =>
+    match k.toNat?, valOf a, valOf b with
+    | some k, some a, some b =>
+      match (Generated.C06.comparatorSites.filter (·.1 == site))[k]? with
+      | none => "no-site"
+      | some s =>
+        match NullsRule.ofText s.2.1 s.2.2 with
+        | none => "unclassified"
+        | some r =>
+          let desc := d == "1"
+          ordChar (cmpKeys (r.flag (nf == "1") (p == "1") desc) [desc] [a] [b])
+    | _, _, _ => "bad-val"
   | _ => "bad-op"
 
 end Zed.Drv.C06
